@@ -3,7 +3,12 @@
 // Op lines (one complete loop run per line):
 //
 //	sloop <n> <thr> <member> <s0> <script>                      signingRetryLoop.start
+//	sloopx <ops> <thr> <member> <s0> <msg> <script> <streams>   signingRetryLoop.start, general selection
 //	dloop <ops> <quorum> <member> <s0> <seed> <script> <stream>  dkgRetryLoop.start
+//
+// sloopx: like sloop but ops = operator id per member (several seats per operator) and ready lists of
+// any size; streams = '|'-separated raw Uint32 streams of the math/rand sources seeded attemptSeed+0,
+// attemptSeed+1, ... (attempt n shuffles operators with source n-1 and trims the surplus with source n).
 //
 // sloop: group of n members, one seat per operator; script entry per loop iteration
 // `<cur|e>/<XY>/<ready>`: cur = what getCurrentBlockFn returns (e = error); X in {W,A,-} = the wait for
@@ -290,16 +295,27 @@ func exec(op string) (string, string) {
 		r := &runner{mainGoid: goid(), script: sc, cancel: cancel}
 		to, _, err := tbtc.VerifC11RunSigningLoop(ctx, big.NewInt(12345), s0, group.MemberIndex(member), ops,
 			&tbtc.GroupParameters{GroupSize: n, GroupQuorum: n, HonestThreshold: thr}, r.callbacks())
-		tail := fmt.Sprintf("=ok:%d", to)
-		if err != nil {
-			if errors.Is(err, context.Canceled) {
-				tail = "=ctx"
-			} else {
-				tail = "=err"
-			}
-		}
-		obs := r.finish(base, tail)
+		obs := r.finish(base, signingTail(to, err))
 		return obs, "s+" + tagOf(obs, sc)
+	case len(f) == 8 && f[0] == "sloopx":
+		opIDs := hx.ParseInts(f[1])
+		thr, member := hx.Atoi(f[2]), hx.Atoi(f[3])
+		s0 := hx.AtoU64(f[4])
+		msg, okb := new(big.Int).SetString(f[5], 10)
+		sc, ok := parseSScript(f[6])
+		if !ok || !okb || member < 1 || member > len(opIDs) {
+			return "bad-op", "bad"
+		}
+		ops := make(chain.Addresses, len(opIDs))
+		for i, o := range opIDs {
+			ops[i] = addr(o)
+		}
+		ctx, cancel := context.WithCancel(context.Background())
+		r := &runner{mainGoid: goid(), script: sc, cancel: cancel}
+		to, _, err := tbtc.VerifC11RunSigningLoop(ctx, msg, s0, group.MemberIndex(member), ops,
+			&tbtc.GroupParameters{GroupSize: len(ops), GroupQuorum: len(ops), HonestThreshold: thr}, r.callbacks())
+		obs := r.finish(0, signingTail(to, err))
+		return obs, "s+x+" + tagOf(obs, sc)
 	case len(f) == 8 && f[0] == "dloop":
 		opIDs := hx.ParseInts(f[1])
 		quorum, member := hx.Atoi(f[2]), hx.Atoi(f[3])
@@ -339,6 +355,18 @@ func exec(op string) (string, string) {
 		return obs, "d+" + tagOf(obs, sc)
 	}
 	return "bad-op", "bad"
+}
+
+func signingTail(to uint64, err error) string {
+	switch {
+	case err == nil:
+		return fmt.Sprintf("=ok:%d", to)
+	case errors.Is(err, context.Canceled):
+		return "=ctx"
+	case strings.HasPrefix(err.Error(), "cannot select members"):
+		return "=selerr"
+	}
+	return "=err"
 }
 
 // ---- generator -----------------------------------------------------------
@@ -442,6 +470,74 @@ func genSloop(r *hx.Rng) string {
 	return fmt.Sprintf("sloop %d %d %d %d %s", n, thr, member, s0, strings.Join(es, ","))
 }
 
+func genSloopx(r *hx.Rng) string {
+	n := r.Range(2, 10)
+	var ops []int
+	id := 0
+	for len(ops) < n {
+		s := r.Range(1, 3)
+		for j := 0; j < s && len(ops) < n; j++ {
+			ops = append(ops, id)
+		}
+		id++
+	}
+	if r.Chance(1, 2) {
+		p := r.Perm(n)
+		q := make([]int, n)
+		for i, j := range p {
+			q[i] = ops[j]
+		}
+		ops = q
+	}
+	thr := r.Range(1, n)
+	member := r.Range(1, n)
+	s0 := genS0(r)
+	msg := new(big.Int).SetBytes(r.Bytes(r.Range(1, 24)))
+	ln := r.Range(1, 7)
+	var es []string
+	for i := 1; i <= ln; i++ {
+		start := s0 + uint64(i-1)*sgC.max
+		annEnd := start + sgC.delay + sgC.active
+		var cur string
+		switch r.Intn(10) {
+		case 0:
+			cur = "e"
+		case 1:
+			cur = fmt.Sprint(annEnd + uint64(r.Intn(2*int(sgC.max))))
+		case 2:
+			cur = fmt.Sprint(annEnd - 1)
+		default:
+			cur = fmt.Sprint(start + uint64(r.Intn(int(sgC.delay+sgC.active))))
+		}
+		x := hx.Pick(r, []string{"-", "-", "-", "-", "-", "-", "W", "A"})
+		y := hx.Pick(r, []string{"E", "E", "S", "U", "K"})
+		if i < ln && y == "K" && r.Chance(2, 3) {
+			y = "E"
+		}
+		var ready []int
+		switch r.Intn(6) {
+		case 0:
+			ready = pickMembers(r, n, thr-1, member, r.Bool())
+		case 1:
+			ready = pickMembers(r, n, r.Range(thr, n), member, false)
+		default:
+			ready = pickMembers(r, n, r.Range(thr, n), member, true)
+		}
+		es = append(es, fmt.Sprintf("%s/%s%s/%s", cur, x, y, dotsInts(ready)))
+	}
+	opAddrs := make(chain.Addresses, n)
+	for i, o := range ops {
+		opAddrs[i] = addr(o)
+	}
+	_, aseed, _ := tbtc.VerifC10SigningSelection(msg, 1, opAddrs, &tbtc.GroupParameters{HonestThreshold: thr}, 1, nil)
+	var sts []string
+	for i := 0; i <= ln+1; i++ {
+		sts = append(sts, stream(aseed+int64(i), n+8))
+	}
+	return fmt.Sprintf("sloopx %s %d %d %d %s %s %s", hx.JoinInts(ops), thr, member, s0, msg,
+		strings.Join(es, ","), strings.Join(sts, "|"))
+}
+
 func stream(seed int64, n int) string {
 	rr := rand.New(rand.NewSource(seed))
 	ss := make([]string, n)
@@ -505,8 +601,10 @@ func genDloop(r *hx.Rng) string {
 func gen(r *hx.Rng, n int, tier string) []string {
 	var out []string
 	for i := 0; i < n; i++ {
-		if r.Chance(3, 5) {
+		if r.Chance(2, 5) {
 			out = append(out, genSloop(r))
+		} else if r.Chance(1, 3) {
+			out = append(out, genSloopx(r))
 		} else {
 			out = append(out, genDloop(r))
 		}
